@@ -131,3 +131,180 @@ Proof.
   - intros i Hi. apply nth_In. rewrite <- Hlen. auto.
   - intro Hnd. apply NoDup_map_nth; [exact Hnd|exact H2|]. intros e He. rewrite <- Hlen. auto.
 Qed.
+
+(* ------------------------------------------------------------------ *)
+(* the whole shard: zone after zone                                     *)
+
+Definition az_at (eps : list (Z * list Z)) (e : nat) : Z := fst (nth e eps (0%Z, [])).
+
+Lemma NoDup_app_disjoint {A} (l l' : list A) :
+  NoDup l -> NoDup l' -> (forall x, In x l -> ~ In x l') -> NoDup (l ++ l').
+Proof.
+  induction l as [|a l IH]; simpl; intros H H' Hd; [exact H'|].
+  inversion H; subst. constructor.
+  - intro Hin. apply in_app_or in Hin as [Hin|Hin]; [contradiction|]. apply (Hd a); [now left|exact Hin].
+  - apply IH; [assumption|assumption|]. intros x Hx. apply Hd. now right.
+Qed.
+
+Lemma filter_map_comm {A B} (f : B -> bool) (g : A -> B) l : filter f (map g l) = map g (filter (fun x => f (g x)) l).
+Proof. induction l as [|a l IH]; simpl; [reflexivity|]. destruct (f (g a)); simpl; rewrite IH; reflexivity. Qed.
+
+Lemma zone_nodes_as_positions disabled eps z :
+  zone_nodes disabled eps z
+  = length (filter (fun k => (zone_of disabled (az_at eps k) =? z)%Z) (seq 0 (length eps))).
+Proof.
+  unfold zone_nodes, az_at.
+  rewrite <- (Proofs.C18.map_nth_seq (0%Z, @nil Z) eps) at 1.
+  rewrite filter_map_comm, map_length. reflexivity.
+Qed.
+
+Lemma zones_of_NoDup disabled eps : forall seen, NoDup seen -> NoDup (zones_of disabled seen eps).
+Proof.
+  induction eps as [|[az hs] r IH]; intros seen Hnd; simpl.
+  - apply NoDup_rev. exact Hnd.
+  - destruct (existsb (Z.eqb (zone_of disabled az)) seen) eqn:E; [apply IH; exact Hnd|].
+    apply IH. constructor; [|exact Hnd]. intro Hin.
+    assert (existsb (Z.eqb (zone_of disabled az)) seen = true); [|congruence].
+    apply existsb_exists. exists (zone_of disabled az). split; [exact Hin|apply Z.eqb_refl].
+Qed.
+
+Lemma count_zone_app disabled eps a b z :
+  count_zone disabled eps (a ++ b) z = count_zone disabled eps a z + count_zone disabled eps b z.
+Proof. unfold count_zone. rewrite filter_app, app_length. reflexivity. Qed.
+
+Lemma count_zone_all disabled eps l z :
+  (forall e, In e l -> zone_of disabled (az_at eps e) = z) -> count_zone disabled eps l z = length l.
+Proof.
+  intro H. unfold count_zone. f_equal. induction l as [|a l IH]; simpl; [reflexivity|].
+  unfold az_at in H. rewrite (H a (or_introl eq_refl)), Z.eqb_refl. f_equal. apply IH. intros. apply H. now right.
+Qed.
+
+Lemma count_zone_none disabled eps l z :
+  (forall e, In e l -> zone_of disabled (az_at eps e) <> z) -> count_zone disabled eps l z = 0.
+Proof.
+  intro H. unfold count_zone. induction l as [|a l IH]; simpl; [reflexivity|].
+  unfold az_at in H. destruct (Z.eqb_spec (zone_of disabled (fst (nth a eps (0%Z, [])))) z) as [E|E].
+  - exfalso. apply (H a); [now left|exact E].
+  - apply IH. intros. apply H. now right.
+Qed.
+
+Section Shard.
+  Variable disabled : bool.
+  Variable eps : list (Z * list Z).
+  Hypothesis Hsec : Forall (fun e => snd e <> []) eps.
+  Variable rand : list (Z * list Z).
+  Variable take : Z.
+  Hypothesis Htake : (0 <= take)%Z.
+  Let ring := sort_sections (sections_of 0 eps).
+
+  Lemma ring_section_facts s : In s ring -> s_ep s < length eps /\ s_az s = az_at eps (s_ep s).
+  Proof.
+    intro Hs. apply (proj1 (sort_sections_In _ _)) in Hs.
+    apply sections_of_In in Hs as [B [hs [Hn _]]]. rewrite Nat.sub_0_r in Hn. split; [lia|].
+    unfold az_at. erewrite nth_error_nth; [|exact Hn]. reflexivity.
+  Qed.
+
+  Lemma node_has_section k : k < length eps -> exists s, In s ring /\ s_ep s = k /\ s_az s = az_at eps k.
+  Proof.
+    intro Hk. destruct (nth_error eps k) as [[az hs]|] eqn:N; [|apply nth_error_None in N; lia].
+    assert (hs <> []). { rewrite Forall_forall in Hsec. apply (Hsec (az, hs)). eapply nth_error_In; eauto. }
+    destruct (sections_of_has eps 0 k az hs N H) as [s [Hin [He Ha]]].
+    exists s. split; [apply sort_sections_In; exact Hin|]. split; [exact He|].
+    unfold az_at. erewrite nth_error_nth; [|exact N]. exact Ha.
+  Qed.
+
+  Lemma shard_zones_spec : forall zs nodes, NoDup zs ->
+    (forall z, In z zs -> Z.to_nat take <= length (lookup_pos rand z)) ->
+    shard_zones disabled eps ring rand take zs = Some nodes ->
+    NoDup nodes /\
+    (forall e, In e nodes -> e < length eps /\ In (zone_of disabled (az_at eps e)) zs) /\
+    (forall z, In z zs -> count_zone disabled eps nodes z = Z.to_nat take) /\
+    length nodes = length zs * Z.to_nat take.
+  Proof.
+    induction zs as [|z r IH]; intros nodes Hnd Hpos H; simpl in H.
+    - inversion H; subst. split; [constructor|]. split; [intros ? []|]. split; [intros ? []|reflexivity].
+    - destruct (Z.of_nat (zone_nodes disabled eps z) <? take)%Z eqn:G; [discriminate|]. apply Z.ltb_ge in G.
+      destruct (shard_zones disabled eps ring rand take r) as [rest|] eqn:R; [|discriminate].
+      inversion Hnd as [|? ? Hz Hnd']; subst.
+      destruct (IH rest Hnd' (fun z' Hz' => Hpos z' (or_intror Hz')) eq_refl) as [I1 [I2 [I3 I4]]].
+      set (secs := filter (fun s => (zone_of disabled (s_az s) =? z)%Z) ring) in *.
+      set (D := filter (fun k => (zone_of disabled (az_at eps k) =? z)%Z) (seq 0 (length eps))).
+      assert (HD : NoDup D) by (apply NoDup_filter, seq_NoDup).
+      assert (HDlen : length D = zone_nodes disabled eps z) by (symmetry; apply zone_nodes_as_positions).
+      assert (Hown : forall d, In d D -> exists s, In s secs /\ s_ep s = d).
+      { intros d Hd. apply filter_In in Hd as [Hd Hz']. apply in_seq in Hd.
+        destruct (node_has_section d) as [s [Hs [He Ha]]]; [lia|].
+        exists s. split; [|exact He]. apply filter_In. split; [exact Hs|]. rewrite Ha. exact Hz'. }
+      set (sel := if length secs =? 0 then [] else select secs (lookup_pos rand z) (Z.to_nat take) []) in *.
+      assert (Hsel : NoDup sel /\ length sel = Z.to_nat take /\
+                     forall e, In e sel -> exists s, In s secs /\ s_ep s = e).
+      { unfold sel. destruct (length secs =? 0) eqn:E0.
+        - apply Nat.eqb_eq in E0. split; [constructor|]. split; [|intros ? []].
+          destruct D as [|d D'] eqn:ED.
+          + simpl in HDlen. rewrite <- HDlen in G. simpl. lia.
+          + destruct (Hown d (or_introl eq_refl)) as [s [Hs _]].
+            apply length_zero_iff_nil in E0. rewrite E0 in Hs. contradiction.
+        - destruct (select_spec secs D HD Hown (Z.to_nat take) (lookup_pos rand z) []) as [S1 [S2 [S3 _]]].
+          + apply Hpos. now left.
+          + constructor.
+          + simpl. rewrite HDlen. lia.
+          + split; [exact S1|]. split; [rewrite S2; reflexivity|].
+            intros e He. destruct (S3 e He) as [[]|H']. exact H'. }
+      destruct Hsel as [S1 [S2 S3]].
+      assert (Hselzone : forall e, In e sel -> e < length eps /\ zone_of disabled (az_at eps e) = z).
+      { intros e He. destruct (S3 e He) as [s [Hs <-]]. apply filter_In in Hs as [Hs Hz'].
+        destruct (ring_section_facts s Hs) as [B Ha]. split; [exact B|]. rewrite <- Ha. apply Z.eqb_eq. exact Hz'. }
+      inversion H; subst nodes. clear H. split; [|split; [|split]].
+      + apply NoDup_app_disjoint; [exact S1|exact I1|].
+        intros x Hx Hx'. destruct (Hselzone x Hx) as [_ Zx]. destruct (I2 x Hx') as [_ Zr].
+        rewrite Zx in Zr. contradiction.
+      + intros e He. apply in_app_or in He as [He|He].
+        * destruct (Hselzone e He) as [B Zx]. split; [exact B|]. rewrite Zx. now left.
+        * destruct (I2 e He) as [B Zr]. split; [exact B|now right].
+      + intros z' [<-|Hz'].
+        * rewrite count_zone_app, (count_zone_all disabled eps sel z), (count_zone_none disabled eps rest z); [lia| |].
+          -- intros e He Ez. destruct (I2 e He) as [_ Zr]. rewrite Ez in Zr. contradiction.
+          -- intros e He. apply Hselzone. exact He.
+        * rewrite count_zone_app, (count_zone_none disabled eps sel z'), (I3 z' Hz'); [lia|].
+          intros e He Ez. destruct (Hselzone e He) as [_ Zx]. rewrite Zx in Ez. subst. contradiction.
+      + rewrite app_length, S2, I4. simpl. lia.
+  Qed.
+End Shard.
+
+Lemma zones_of_keeps disabled r : forall seen z0, In z0 seen -> In z0 (zones_of disabled seen r).
+Proof.
+  induction r as [|[a h] r IH]; intros seen z0 Hin; simpl; [rewrite <- in_rev; exact Hin|].
+  destruct (existsb (Z.eqb (zone_of disabled a)) seen); apply IH; [exact Hin|now right].
+Qed.
+
+Lemma per_zone_nonneg ss nz : (0 <= ss)%Z -> 0 < nz -> (0 <= per_zone ss nz)%Z.
+Proof. intros H Hn. unfold per_zone. apply Z.div_pos; lia. Qed.
+
+Lemma tenant_shard_sized eps rf dflt disabled ovs globm tenant rand nodes :
+  Forall (fun e => snd e <> []) eps -> eps <> [] ->
+  let zs := zones_of disabled [] eps in
+  let ss := shard_size ovs globm tenant dflt in
+  let take := if disabled then ss else per_zone ss (length zs) in
+  (0 <= ss)%Z ->
+  (forall z, In z zs -> Z.to_nat take <= length (lookup_pos rand z)) ->
+  tenant_shard eps rf dflt disabled ovs globm tenant rand = SOk nodes ->
+  NoDup nodes /\ (forall e, In e nodes -> e < length eps) /\
+  (forall z, In z zs -> Z.of_nat (count_zone disabled eps nodes z) = take) /\
+  Z.of_nat (length nodes) = (Z.of_nat (length zs) * take)%Z /\ rf <= length nodes.
+Proof.
+  intros Hsec Hne zs ss take Hss Hpos H. unfold tenant_shard in H. fold zs ss in H.
+  change (if disabled then ss else per_zone ss (length zs)) with take in H.
+  assert (Hzs : 0 < length zs).
+  { destruct eps as [|[az hs] r]; [congruence|]. unfold zs. simpl.
+    pose proof (zones_of_keeps disabled r [zone_of disabled az] (zone_of disabled az) (or_introl eq_refl)) as Hk.
+    destruct (zones_of disabled [zone_of disabled az] r); [contradiction|simpl; lia]. }
+  assert (Htake : (0 <= take)%Z).
+  { unfold take. destruct disabled; [exact Hss|apply per_zone_nonneg; assumption]. }
+  destruct (shard_zones disabled eps (sort_sections (sections_of 0 eps)) rand take zs) as [ns|] eqn:S; [|discriminate].
+  destruct (length ns <? rf) eqn:L; [discriminate|]. apply Nat.ltb_ge in L. inversion H; subst ns.
+  destruct (shard_zones_spec disabled eps Hsec rand take Htake zs nodes (zones_of_NoDup disabled eps [] (NoDup_nil _)) Hpos S)
+    as [H1 [H2 [H3 H4]]].
+  split; [exact H1|]. split; [intros e He; apply H2; exact He|]. split; [|split; [|exact L]].
+  - intros z Hz. rewrite (H3 z Hz). apply Z2Nat.id. exact Htake.
+  - rewrite H4, Nat2Z.inj_mul, Z2Nat.id by exact Htake. reflexivity.
+Qed.
